@@ -154,7 +154,13 @@ def gen(rng, tier):
             for mode in ("client", "producer"):
                 for codec in (2, 1, 0):
                     if i < n:
-                        cases.append(make_case(rng, tier, mode, codec, size))
+                        c = make_case(rng, tier, mode, codec, size)
+                        if i % 6 == 5 and "plan" not in c:
+                            # a stream that takes only part of what it is offered (TLS records, a socket with a write time-out):
+                            # the request must arrive whole all the same
+                            c["plan"] = {"write_chunk": rng.choice([7, 1000, 4096, 16384] if size in ("small", "kib") else [4096, 16384])}
+                            c["meta"]["write_chunk"] = c["plan"]["write_chunk"]
+                        cases.append(c)
                         i += 1
     return cases
 
